@@ -6,7 +6,7 @@
 
 Pieces
 ------
-    FileEnv(schema, path)            qdiff.Env twin whose SQLite database lives in a FILE (same declarations, same loader)
+    make_file_env(schema, path)      qdiff.Env twin whose SQLite database lives in a FILE (same declarations, same loader)
     DialectEnv(schema, name, path)   the same entity declarations on a Database bound to dialect `name`
                                      ('postgres' | 'mysql' execute on `path`; 'oracle' | 'cockroach' record only)
                                      -- has .orm/.db/.ns/._fn_cache, so qdiff.run_program(env, program) works on it
@@ -21,9 +21,10 @@ REWRITER WHITELIST (everything else => ShimUnsupported(construct), counted, neve
     casts             (e)::int|text|double precision, f(..)::t, "a"."b"::t, case..end::t -> CAST(e AS INTEGER|TEXT|REAL)
                       CAST(e AS SIGNED|UNSIGNED|CHAR|DOUBLE|integer|text|real) -> CAST(e AS INTEGER|TEXT|REAL)
     trim              MySQL trim(both|leading|trailing x from y) -> mysql_trim('both'|.., x, y)   (UDF, remstr semantics)
-    limits            LIMIT 18446744073709551615 -> LIMIT -1 ; LIMIT null -> LIMIT -1
+    limits            LIMIT 18446744073709551615 -> LIMIT -1 (MySQL only) ; LIMIT null -> LIMIT -1 (PostgreSQL only)
     booleans          true / false literals (native in SQLite >= 3.23)
-    aggregates        string_agg([distinct] e, sep) -> UDF aggregate ; GROUP_CONCAT([DISTINCT] e SEPARATOR s) -> (UDF) aggregate
+    aggregates        string_agg([distinct] e, sep) -> UDF aggregate ; GROUP_CONCAT([DISTINCT] e SEPARATOR s) -> (UDF) aggregate ;
+                      MySQL GROUP_CONCAT(e1, e2) = per-row concatenation of e1 and e2 (NOT a separator argument)
     row values        (a, b) [NOT] IN ((..), (..)) -> (a, b) [NOT] IN (VALUES (..), (..))
     MySQL ||          logical OR (default sql_mode has no PIPES_AS_CONCAT)
     session stmts     DISCARD ALL, SET ... : no-ops ; version/catalog probes: canned rows of the record-mode shim
@@ -236,7 +237,7 @@ def rewrite(dialect, style, sql, args):
                     elif is_op(j, ')'): depth -= 1
                     elif depth == 0 and is_op(j, ','): commas += 1
                 is_call = lo > 0 and tokens[lo - 1][0] == 'word' and tokens[lo - 1][2] in (FUNCS | DIALECT_WORDS.get(dialect, set()))
-                if commas and not is_call:
+                if commas and not is_call and not is_word(lo + 1, 'SELECT'):
                     if is_word(i + 3, 'SELECT'): pass
                     else:
                         post[i + 1] = ' VALUES'; seen['row_value_in'] += 1
@@ -273,8 +274,8 @@ def rewrite(dialect, style, sql, args):
                         s -= 1
                     if s < 0: raise ShimUnsupported('cast-operand:case', sql)
                 else: raise ShimUnsupported('cast-operand:' + (tokens[k][1] if k >= 0 else 'bof'), sql)
-                if s > 0 and is_op(s - 1, '-') and not (s > 1 and (tokens[s - 2][0] in ('ident', 'ph', 'str', 'num') or is_op(s - 2, ')'))):
-                    raise ShimUnsupported('cast-operand:unary-minus', sql)      # -(x)::t is -((x)::t) in PostgreSQL
+                # a unary minus in front stays OUTSIDE the cast: -(x)::t is -((x)::t) in PostgreSQL (:: binds tighter),
+                # and -CAST((x) AS T) is what is emitted
                 pre[s] = 'CAST(' + pre[s]
                 text[i] = ' AS %s)' % target
                 for jj in range(i + 1, j): text[jj] = ''
